@@ -399,9 +399,9 @@ def families(ctx):
 
 
 def run(ctx):
-    for name, fn in families(ctx):
-        ctx.guarded(name, fn)
-    ctx.bounds += ['operand payloads: every i64; operand kinds: all 7 Cedar value kinds; no unrolling (loop-free kernels)',
+    ctx.run_families(families(ctx))
+    from . import like as _like
+    ctx.bounds += [_like.describe(ctx), 'operand payloads: every i64; operand kinds: all 7 Cedar value kinds; no unrolling (loop-free kernels)',
                    'evaluator arms: one node of each kind (&&, ||, if, unary, binary scalar / set / in / tag operators, like, is, has, attribute access) with arbitrary outcomes (value of any kind / residual / error) '
                    'of its sub-expressions => expressions of any depth by structural induction; entity store as environment (absent / partial / present entity, attribute or tag present or not)']
     ctx.assumptions += ['EvaluationError constructors (type_error_single) and derive-generated From<..> for EvaluationError are opaque logged constructors',
